@@ -190,11 +190,16 @@ impl Model {
     /// handle, a response and a re-use of the id may all go either way.
     pub fn in_limbo(&self, i: usize) -> bool {
         let tx = &self.txs[i];
-        tx.status == Status::Live && (tx.rc || (!tx.sc && tx.k >= tx.intervals_ms.len() && self.last_poll.map_or(false, |p| tx.next_instant() <= p)))
+        tx.status == Status::Live && (tx.rc || (tx.k >= tx.intervals_ms.len() && self.last_poll.map_or(false, |p| tx.next_instant() <= p)))
     }
     /// A `TransactionCancelled(tid)` could belong to either of two transactions with this id.
     pub fn ambiguous_cancel(&self, tid: u128) -> bool {
         self.txs.iter().any(|t| t.tid == tid && t.report_pending && t.status == Status::Cancelled) && self.live_idx(tid).map_or(false, |i| self.txs[i].sc && !self.txs[i].rc)
+    }
+    /// A `TransactionTimedOut(tid)` could be the owed report of an earlier transaction with this id
+    /// or the time-out of the live one (itself past its schedule).
+    pub fn ambiguous_timeout(&self, tid: u128, now: u64) -> bool {
+        self.txs.iter().any(|t| t.tid == tid && t.report_pending && (t.status == Status::TimedOut || (t.sc && !t.rc))) && self.live_idx(tid).map_or(false, |i| { let t = &self.txs[i]; t.k >= t.intervals_ms.len() && t.next_instant() <= now })
     }
     fn invalidate_wait(&mut self) {
         self.last_wait = None;
@@ -209,7 +214,7 @@ impl Model {
                 // counts as outstanding in that window is not stated by any property.  An agent that
                 // accepts the id again has, for the model, completed the old transaction (its
                 // TransactionCancelled report may still come).
-                self.txs[i].status = if self.txs[i].rc { Status::Cancelled } else { Status::TimedOut };
+                self.txs[i].status = if self.txs[i].rc || self.txs[i].sc { Status::Cancelled } else { Status::TimedOut };
                 self.txs[i].completed_at = Some(now);
                 self.txs[i].report_pending = true;
                 // fall through: the send is treated as the send of a fresh request
@@ -396,11 +401,13 @@ impl Model {
                 Ok(PollOutcome::Retransmit(tid))
             }
             Reply::TimedOut(tid) => {
-                if let Some(j) = self.txs.iter().position(|t| t.tid == *tid && t.report_pending && t.status == Status::TimedOut) {
+                if let Some(j) = self.txs.iter().position(|t| t.tid == *tid && t.report_pending && (t.status == Status::TimedOut || (t.sc && !t.rc))) {
                     // the owed report of a transaction whose id was re-used after it had expired —
                     // unless the live one with that id has itself run out
                     let live_expired = self.live_idx(*tid).map_or(false, |i| { let t = &self.txs[i]; t.k >= t.intervals_ms.len() && t.next_instant() <= now });
-                    if !live_expired {
+                    // (both could have produced it: the driver has asked the agent which one is gone)
+                    let book_on_live = live_expired && self.hint_live_gone.take().unwrap_or(true);
+                    if !book_on_live {
                         self.txs[j].report_pending = false;
                         self.note_instant(now, None);
                         self.invalidate_wait();
